@@ -830,6 +830,15 @@ def exact_fraction_value(arrs):
     return sum(x for (h, v), x in state.items() if all(i == 0 for i in h))
 
 
+
+_run_main = run
+
+
+def run(ctx):   # noqa: F811
+    _run_main(ctx)
+    from harness import c11_extra
+    c11_extra.run(ctx)
+
 def replay(path):
     d = json.load(open(path))
     print(json.dumps({k: v for k, v in d.items() if k != 'replay'}, indent=1))
